@@ -174,6 +174,7 @@ def _alu(a: Asm, r: Rng) -> None:
 def gen_machine_program(r: Rng, feat: Dict[str, bool], size: int) -> Dict:
     """Return {"image": [[addr, bytes]], "main":, "handler":, "ins": {addr: [len, tag]}, ...}."""
     verify_skeleton()
+    rh = r.child("handler-lowpower")     # its own stream: the draws below leave every other choice where it was
     a = Asm(CODE_BASE)
     # ---- prologue (executed once): strobe the keyboard columns so keys are visible
     if feat.get("keys"):
@@ -407,12 +408,23 @@ def gen_machine_program(r: Rng, feat: Dict[str, bool], size: int) -> Dict:
     slots = list(range(body + 2))
     re_slot = r.choice(slots) if style["reenable"] else -1
     cl_slot = r.choice(slots) if style["clear"] != "none" else -1
+    # a handler that puts the machine to sleep itself (auto power-off from the timer handler, "wait for the ON key"):
+    # HALT or OFF inside the handler, after the acknowledge when there is one
+    low = None
+    if feat.get("h_lowpower") and rh.chance(1, 2):
+        low = rh.choice(["HALT", "HALT", "OFF"])
+        low_slot = rh.choice([s for s in slots if s >= cl_slot])
+        style["lowpower"] = low
     for sidx in slots:
         if sidx == re_slot:
             a.op("OR_IMR", 0x80, tag="H:reenable")
         if sidx == cl_slot:
             mask = {"all": 0x00, "some": r.choice([0xFE, 0xFD, 0xFB, 0xF7, 0xFC, 0xF3]), "timers": 0xFC}[style["clear"]]
             a.op("AND_ISR", mask, tag="H:clear")
+        if low and sidx == low_slot:
+            a.op(low, tag="H:" + low)
+            a.op("NOP")
+            a.op("NOP")
         if sidx < body:
             w = r.below(5)
             if w == 0:
